@@ -51,6 +51,17 @@ Theorem C12_predict_nested :
     forall i i' c, nth_error cur i = Some c -> nth_error cur i' = Some c ->
     Forall (fun col => exists b, nth_error col i = Some b /\ nth_error col i' = Some b) up.
 Proof. exact @preds_up_nested. Qed.
+(* "fit and any partial_fit batching": a fresh chain trained in two partial_fit batches ends in exactly the state of
+   a one-epoch fit on the concatenated batches, so every statement above about the result of chain_fit (tree shape,
+   columns, counts, map_deep) holds for it as well *)
+From ART Require Import SAM_hist Deep_hist.
+Theorem C12_two_batches_is_a_fit :
+  forall (N : Num) (Ks : list (Kernel N)) rs (ls1 ls2 : list (sam (N:=N))) Xs1 Xs2 y1 y2 n1 n2 m eps,
+    Forall (fun X => length X = n1) Xs1 -> Forall (fun X => length X = n2) Xs2 ->
+    chain_partial_fit Ks (map sam_init rs) Xs1 y1 n1 m eps = Some ls1 ->
+    chain_partial_fit Ks ls1 Xs2 y2 n2 m eps = Some ls2 ->
+    chain_fit Ks (map sam_init rs) (zipapp Xs1 Xs2) (y1 ++ y2) 1 m eps = Some ls2.
+Proof. exact @chain_two_batches_eq_fit. Qed.
 Print Assumptions C12_chain_fit.
 Print Assumptions C12_nested.
 Print Assumptions C12_map_deep.
